@@ -99,6 +99,9 @@ struct Shared {
     tap: Tap,
     start: Instant,
     record_payload: bool,
+    /// Total frame budget over both directions; when exceeded both sinks block forever.
+    budget: Option<u64>,
+    budget_exceeded: bool,
 }
 
 impl Shared {
@@ -220,6 +223,8 @@ impl SimLink {
             tap: Arc::new(Mutex::new(Vec::new())),
             start: now,
             record_payload: true,
+            budget: None,
+            budget_exceeded: false,
         }));
         {
             let mut s = shared.lock().unwrap();
@@ -285,6 +290,16 @@ impl SimLink {
         }
     }
 
+    /// Sets a total frame budget (both directions). Once exceeded, the sinks never become
+    /// ready again, so that a frame-emitting livelock turns into quiescence.
+    pub fn set_budget(&self, frames: u64) {
+        self.shared.lock().unwrap().budget = Some(frames);
+    }
+
+    pub fn budget_exceeded(&self) -> bool {
+        self.shared.lock().unwrap().budget_exceeded
+    }
+
     /// Arms an additional fault now.
     pub fn arm(&self, fault: Fault) {
         let mut s = self.shared.lock().unwrap();
@@ -307,6 +322,12 @@ impl Sink<Bytes> for SimSink {
 
     fn poll_ready(self: Pin<&mut Self>, cx: &mut Context<'_>) -> Poll<Result<(), Self::Error>> {
         let mut s = self.shared.lock().unwrap();
+        if let Some(b) = s.budget {
+            if (s.dirs[0].sent + s.dirs[1].sent) as u64 >= b {
+                s.budget_exceeded = true;
+                return Poll::Pending;
+            }
+        }
         let d = &mut s.dirs[self.dir as usize];
         if d.sink_failed {
             return Poll::Ready(Err(link_err("sink error injected")));
